@@ -9,17 +9,30 @@ META = dict(
           "state as index or string, incl. an unobserved one}; (b) marginal trees of forest-walk generated tree "
           "sequences (polytomies, unary chains, multiple roots, internal/isolated samples, dead leaves, 30-90 node "
           "'wide' trees) with random and evolved genotype vectors over up to 64 alleles (index 63 forced often), "
-          "missingness 0-90 % drawn independently of the sample kind; (c) documented refusals. Each result is "
+          "missingness 0-90 % or exactly one observation, drawn independently of the sample kind; allele indexes "
+          "31/32/63 forced; stars / root sets with 255-600 children (quick: also > 2^16 children) where one allele "
+          "sits on exactly 255/256/257/511/512/513/65535/65536/65537 children; spines of depth 1000-3000; "
+          "(c) documented refusals, also at the low-level method; (d) the live Variant.genotypes / Variant.alleles of "
+          "generated sites (isolated_as_missing on and off) on the tree at the site; (e) every way of obtaining a "
+          "Tree (at, at_index, trees(), aslist, Tree(ts)+seek/seek_index, first-next and last-prev sweeps of one "
+          "reused object incl. the null state, copy, sample_lists/tracked_samples, root_threshold=2). Argument "
+          "forms cycle through list/tuple/eight numpy dtypes/non-contiguous/big-endian/read-only genotypes, "
+          "tuple/list/str alleles, int/str/numpy-scalar ancestral states, positional/keyword calls, and the "
+          "low-level _tskit method. Each result is "
           "checked against an independent unit-cost DP optimum (itself cross-checked by brute force on tiny "
           "instances), read back per sample, parent links, unary-chain placement, and periodically loaded as a "
-          "mutation table. A case is distinct by its tree (row tuples / enumeration index)."),
+          "mutation table (plain add_row and the docstring recipe mutations.append(mutation.replace(...)) + sort on "
+          "the tables of the tree sequence itself, also with a JSON mutation metadata schema). A case is distinct by "
+          "its tree (row tuples / enumeration index)."),
     REQUIRED=["oracle:reproduce", "oracle:optimum", "oracle:parents", "oracle:unary-chain",
               "oracle:fixed-ancestral-state", "oracle:must-raise", "oracle:dp-vs-bruteforce",
-              "oracle:loads-as-mutation-table", "exhaustive-trees"],
+              "oracle:loads-as-mutation-table", "exhaustive-trees", "oracle:ll-direct", "oracle:docstring-route",
+              "family:variants", "family:entry", "family:huge-fanout", "family:deep"],
     ASSUMPTIONS=ASSUME_COMMON + [
         "unit-cost small parsimony with one shared ancestral state for all roots is the cost model the docstring "
         "describes ('transitions between any of the non-missing states equally likely')",
-        "trees are used with the default root_threshold=1",
+        "with root_threshold > 1 the oracle is evaluated on the forest below tree.roots (samples outside it are "
+        "unreachable for any placement)",
     ],
     BUDGET={"quick": 50.0, "thorough": 840.0},
     CASE_TIMEOUT={"quick": 60, "thorough": 240},
